@@ -189,6 +189,10 @@ fn captured_pool() -> Vec<(&'static str, PoolItem)> {
     let s = |x: &str| Direct(RVal::Str(x.to_string()));
     let n = |x: f64| Direct(RVal::num(x));
     vec![
+        // closures whose own body has a bare via / into / where after a string literal holding the other kind of quote
+        ("closure-via-after-single-quote-in-double", Src("(s => (split(s, \"'\") via uppercase))")),
+        ("closure-where-after-double-quote-in-single", Src("(l => ([...l] where (c => c != '\"')))")),
+        ("closure-into-after-apostrophe", Src("(s => ((s + \"it's\") into uppercase))")),
         ("string-plain", s("plain")),
         ("string-double-quote", s("say \"hi\"")),
         ("string-single-quote", s("it's")),
